@@ -24,6 +24,7 @@ structure Variant where
   seedAtParse : Bool      -- `--seed` seeds the generator as soon as it is parsed (D2 repaired)
   zeroIsSeed : Bool       -- `args.seed is not None` rather than `if args.seed:` (D1 repaired)
   reseedBeforeBuild : Bool := true   -- `random.seed(args.seed)` again just before `build_formula`
+  deriving DecidableEq, Repr
 
 def current : Variant := ⟨true, true, true⟩
 
